@@ -122,9 +122,12 @@ func (ce *ContentExtractor) ensureTitleInitialized() {
 		return
 	}
 
-	title := ce.Parser.Title()
-	if title != "" {
-		ce.candidateTitles = append(ce.candidateTitles, title)
+	// A page that has opted out has no markup information, so no markup title either.
+	if !ce.Parser.OptOut() {
+		title := ce.Parser.Title()
+		if title != "" {
+			ce.candidateTitles = append(ce.candidateTitles, title)
+		}
 	}
 
 	documentTitle := getDocumentTitle(ce.documentElement, ce.WordCounter)
